@@ -148,4 +148,51 @@ def run(ctx):
         cov.case((name, fam.spec, desc["rows"], calls), ncat >= 2 or name in ("SimpleARTMAP", "ARTMAP"))
         if i < 3:
             cov.sample({"family": name, "spec": fam.spec, "calls": calls})
+    label_dtypes(ctx)
     e2e.base_histories(ctx, "C05", ctx.scale(150, 3000), ctx.scale(20, 80), fields=("labels", "cnt"))
+
+
+def label_dtypes(ctx):
+    """class targets need not be an int array (bool flags, float codes): the A-side labels_ are category indices all
+    the same — integers that index W, with counters equal to their histogram — whichever call came first"""
+    from .. import specs
+    from ..impl import make
+    cov = ctx.cov
+    for i in range(ctx.scale(24, 300)):
+        r = gen.rng_for(ctx.seed, "C05-ydtype", i)
+        d = r.randint(1, 3)
+        n = r.randint(4, 14)
+        spec = {"cls": "SimpleARTMAP", "module_a": specs.elem_spec(r, "FuzzyART", d)}
+        X = specs.elem_data(r, "FuzzyART", n, d)
+        kind = ["bool", "float", "int32", "uint8"][i % 4]
+        y0 = gen.labels(r, n, 2 if kind == "bool" else 3)
+        y = y0.astype({"bool": bool, "float": float, "int32": np.int32, "uint8": np.uint8}[kind])
+        first = r.choice(["partial_fit", "fit"])
+        parts = gen.compositions(r, n)
+        rep = {"spec": spec, "X": X.tolist(), "y": y0.tolist(), "y_dtype": kind, "first_call": first, "partition": parts}
+        try:
+            est = make(spec)
+            with quiet():
+                j = 0
+                for k_, p in enumerate(parts):
+                    fn = est.fit if (k_ == 0 and first == "fit") else est.partial_fit
+                    if fn == est.fit:
+                        j = 0
+                    fn(X[j:j + p], y[j:j + p])
+                    j += p
+            seen = p if first == "fit" and len(parts) == 1 else (sum(parts) if first == "partial_fit" else sum(parts))
+            m = est.module_a
+            lab = np.asarray(m.labels_)
+            if lab.dtype.kind not in "iu":
+                ctx.issue("violation", "SimpleARTMAP.module_a:labels-dtype", f"A-side labels_ have dtype {lab.dtype} (targets were {kind}): "
+                          f"{lab.tolist()[:8]}", rep)
+            else:
+                cnt = [int(t) for t in m.weight_sample_counter_]
+                hist = np.bincount(lab.astype(int), minlength=len(m.W)).tolist()
+                if len(lab) != n or lab.max() >= len(m.W) or cnt != hist:
+                    ctx.issue("violation", "SimpleARTMAP.module_a:counters!=histogram", f"targets {kind}: labels {lab.tolist()} "
+                              f"counters {cnt} |W|={len(m.W)}", rep)
+            cov.hit(f"targets-dtype:{kind}")
+            cov.case(("ydtype", spec, rep["X"], rep["y"], kind, first, parts), len(m.W) >= 2)
+        except Exception as e:
+            cov.hit(f"targets-dtype:{kind}:raised:{exc_enum(e)}")
